@@ -220,7 +220,32 @@ def rule_r4(p, res):
         r.instance(f)
     tparam = vn.params[1]
     ats = [c for c in calls_in(vn.node) if (dotted(c.func) or "") in ("np.add.at", "numpy.add.at")]
-    cols = sorted(norm(c.args[1]) for c in ats if len(c.args) == 3)
+    cols = []
+    for c in ats:
+        if len(c.args) != 3:
+            continue
+        # a scatter inside `for k in range(3)` (or over (0, 1, 2)) stands for the three columns
+        lp_ = None
+        n_ = getattr(c, "_parent", None)
+        while n_ is not None and n_ is not vn.node:
+            if isinstance(n_, ast.For):
+                lp_ = n_
+                break
+            n_ = getattr(n_, "_parent", None)
+        idx = c.args[1]
+        ks = None
+        if lp_ is not None and isinstance(lp_.target, ast.Name):
+            it = lp_.iter
+            if isinstance(it, ast.Call) and (dotted(it.func) or "") == "range" and len(it.args) == 1 and const_value(it.args[0]) is not None:
+                ks = list(range(const_value(it.args[0])))
+            elif isinstance(it, (ast.Tuple, ast.List)) and all(const_value(x) is not None for x in it.elts):
+                ks = [const_value(x) for x in it.elts]
+        if ks is not None and any(isinstance(x, ast.Name) and x.id == lp_.target.id for x in ast.walk(idx)):
+            for k_ in ks:
+                cols.append(norm(idx).replace(lp_.target.id, str(k_)))
+        else:
+            cols.append(norm(idx))
+    cols = sorted(str(x) for x in cols)
     want = sorted("%s[:, %d]" % (tparam, k) for k in range(3))
     r.check(cols == want, vn, vn.node, "vertex normals must accumulate the face normal at the three corner indices %s (found %s)" % (want, cols), {"scatter_columns": cols})
     d = Defs(vn.node)
